@@ -174,6 +174,7 @@ Pos(name, kind, pre, post, uses) == [name |-> name, kind |-> kind, pre |-> pre, 
 PositionTable == <<
   Pos("top",            "stmt", "", "", {}),
   Pos("function",       "stmt", "function w1() { ", " }", {}),
+  Pos("function-locals","stmt", "function w1(a, b, c, d) { ", " }", {}),
   Pos("arrow",          "stmt", "var w1 = () => { ", " };", {}),
   Pos("method",         "stmt", "class W1 { m() { ", " } }", {}),
   Pos("generator",      "stmt", "function* w1() { ", " }", {}),
@@ -208,6 +209,28 @@ CellSrc(f, p) ==
   pt.pre \o (IF pt.kind = "stmt" THEN AsStmt(ft) ELSE AsExpr(ft)) \o pt.post
 CellUses(f, p) == {f} \cup Feat(f).uses \cup PosOf(p).uses
 Cells == {<<f, p>> \in Features \X Positions : ValidCell(f, p)}
+
+\* Minifier bait: inputs without the feature `tempts` that the minifier could shorten by
+\* introducing it (a != null ? a : b  ->  a ?? b); it may do so only if the target has it.
+Bait(name, snip, tempts, uses) == [name |-> name, snip |-> snip, tempts |-> tempts, uses |-> uses]
+BaitTable == <<
+  Bait("bait-nullish",          "function w3(a, b) { return a != null ? a : b; }", "nullish-coalescing", {}),
+  Bait("bait-optional-chain",   "function w3(a) { return a == null ? void 0 : a.b.c(1); }", "optional-chain", {}),
+  Bait("bait-optional-call",    "function w3(a) { a != null && a.b(); }", "optional-chain", {}),
+  Bait("bait-logical-or-assign","function w3(a, b) { a || (a = b); return a; }", "logical-assignment", {}),
+  Bait("bait-nullish-assign",   "function w3(a, b) { a ?? (a = b); return a; }", "logical-assignment", {"nullish-coalescing"}),
+  Bait("bait-exponent",         "function w3(a, b) { return Math.pow(a, b); }", "exponent-operator", {}),
+  Bait("bait-optional-catch",   "function w3() { try { a(); } catch (e) { b(); } }", "optional-catch-binding", {}),
+  Bait("bait-object-spread",    "function w3(a, b) { return Object.assign({}, a, { b }); }", "object-rest-spread", {}),
+  Bait("bait-bigint",           "function w3() { return BigInt(\"123\"); }", "bigint", {})
+>>
+BIdx      == 1..Len(BaitTable)
+Baits     == {BaitTable[i].name : i \in BIdx}
+BaitMap   == [n \in Baits |-> BaitTable[CHOOSE i \in BIdx : BaitTable[i].name = n]]
+StmtPositions == {p \in Positions : PosOf(p).kind = "stmt"}
+BaitCells == Baits \X StmtPositions
+BaitSrc(b, p) == PosOf(p).pre \o BaitMap[b].snip \o PosOf(p).post
+BaitUses(b, p) == BaitMap[b].uses \cup PosOf(p).uses
 
 \* the stages of the pipeline that can add syntax of their own (harness-side product)
 Stages == <<
@@ -295,13 +318,17 @@ ExportAllow(dummy) ==
                                      consistent |-> Consistent(AllowedEngines(es, OvOf(f, m)), OvOf(f, m))])>>)
 
 \* matrix behaviour: one state per cell (so that the cell count is TLC's state count)
-MInit == u \in Cells
+MInit == u \in Cells \cup BaitCells
 FirstCell == CHOOSE c \in Cells : TRUE
 CellOK ==
   /\ (u = FirstCell) => (ExportHeader(0) /\ ExportAllow(0))
-  /\ CellSrc(u[1], u[2]) # "" /\ u[1] \in CellUses(u[1], u[2])
-  /\ PrintT(<<"CASE", ToJson([kind |-> "cell", feature |-> u[1], position |-> u[2], src |-> CellSrc(u[1], u[2]),
-                               uses |-> CellUses(u[1], u[2]), module |-> Feat(u[1]).kind = "module"])>>)
+  /\ IF u[1] \in Baits
+     THEN /\ BaitMap[u[1]].tempts \in Features /\ BaitMap[u[1]].tempts \notin BaitUses(u[1], u[2])
+          /\ PrintT(<<"CASE", ToJson([kind |-> "cell", feature |-> u[1], position |-> u[2], src |-> BaitSrc(u[1], u[2]),
+                                       uses |-> BaitUses(u[1], u[2]), module |-> FALSE, tempts |-> BaitMap[u[1]].tempts])>>)
+     ELSE /\ CellSrc(u[1], u[2]) # "" /\ u[1] \in CellUses(u[1], u[2])
+          /\ PrintT(<<"CASE", ToJson([kind |-> "cell", feature |-> u[1], position |-> u[2], src |-> CellSrc(u[1], u[2]),
+                                       uses |-> CellUses(u[1], u[2]), module |-> Feat(u[1]).kind = "module", tempts |-> ""])>>)
 
 -----------------------------------------------------------------------------
 (* ------------------------------ part (b) ------------------------------- *)
@@ -1262,23 +1289,39 @@ PairExpr(c1, j, c2) == Build(c1, [DefaultSlots(c1, 0) EXCEPT ![j] = Build(c2, De
 \* slots whose value is consumed in a way the rules cover for any operand
 NestSlots(cd) == {j \in DOMAIN cd.roles : cd.roles[j] \in {"r", "ro", "v", "n", "c", "g", "gs", "gt", "i", "b"}}
 PairPositions == <<"ret", "arrow", "aarrow", "gen", "field", "sfield", "sblock", "clskey", "dflt", "heritage", "arg">>
-PairProgs(outer, inner, idx) ==
-  {Prog(pos \o "/" \o outer[i].name \o "/" \o ToString(j) \o "/" \o inner[m].name, Wrap(pos, PairExpr(outer[i], j, inner[m]))) :
-     <<i, j, m, pos>> \in {<<i2, j2, m2, q>> \in idx \X (1..3) \X (DOMAIN inner) \X SeqSet(PairPositions) :
+\* (idx: this run's share of the outer constructs; only every stride-th combination, seeded by
+\* offset, is built)
+PairProgs(outer, inner, idx, stride, offset) ==
+  LET pp == PairPositions IN
+  {Prog(pp[q] \o "/" \o outer[i].name \o "/" \o ToString(j) \o "/" \o inner[m].name, Wrap(pp[q], PairExpr(outer[i], j, inner[m]))) :
+     <<i, j, m, q>> \in {<<i2, j2, m2, q2>> \in idx \X (1..3) \X (DOMAIN inner) \X (DOMAIN pp) :
+         /\ (i2 * 7 + j2 * 3 + m2 * 5 + q2 + offset) % stride = 0
          /\ j2 \in NestSlots(outer[i2]) /\ Nestable(inner[m2])
-         /\ (outer[i2].req = "" \/ q = "ret")
-         /\ PosOK([outer[i2] EXCEPT !.req = ""], PairExpr(outer[i2], j2, inner[m2]), q)}}
+         /\ outer[i2].req = ""
+         \* an operand that awaits cannot stand inside the synchronous function / class body of a template
+         /\ NeedsAsync(Build(inner[m2], DefaultSlots(inner[m2], 10))) =>
+              (outer[i2].fam \notin {"class", "rest"} /\ (outer[i2].fam = "using" => outer[i2].op \in {"u_await", "u_mixed"}))
+         /\ PosOK(outer[i2], PairExpr(outer[i2], j2, inner[m2]), pp[q2])}}
+\* the inner constructs of the nestings: one or two of every family
+InnerNames == {"oc_call", "oc_ocall", "oc_idx", "oc_paren", "oc_delete", "nul", "la_nn_mem_u", "la_or_idx", "pow", "powasg_mem",
+               "spread2", "tag_mem", "r_decl", "u_block", "a_order", "a_gen"}
 
 \* ---- environments of a program
-RECURSIVE EnvsOver(_)
-EnvsOver(ps) ==   \* ps: set of <<id, role>>
+\* nestings: two classes per operand (the product over up to six operands stays small)
+RoleSetSmall(role) ==
+  CASE role = "r"  -> {"U", "O"} [] role = "v"  -> {"U", "T"} [] role = "n"  -> {"T", "W"} [] role = "k"  -> {"S"}
+    [] role = "ka" -> {"Sa"} [] role = "g"  -> {"G", "U"} [] role = "gs" -> {"G", "T"} [] role = "gt" -> {"G"}
+    [] role = "f"  -> {"F"} [] role = "i"  -> {"O", "U"} [] role = "d"  -> {"D", "DX"} [] role = "da" -> {"AD", "D"}
+    [] OTHER -> RoleSet(role)
+RECURSIVE EnvsOver(_, _)
+EnvsOver(ps, small) ==   \* ps: set of <<id, role>>
   IF ps = {} THEN {<<>>} ELSE
   LET q == CHOOSE q \in ps : TRUE IN
-  {(q[1] :> cl) @@ e : cl \in RoleSet(q[2]), e \in EnvsOver(ps \ {q})}
+  {(q[1] :> cl) @@ e : cl \in (IF small THEN RoleSetSmall(q[2]) ELSE RoleSet(q[2])), e \in EnvsOver(ps \ {q}, small)}
 ThrowEnvs(ps, base) ==   \* one probe throws; the others take their first class
   LET e0 == CHOOSE e \in base : TRUE IN {[e0 EXCEPT ![q[1]] = "X"] : q \in ps}
-EnvsOf(x, withThrow) ==
-  LET ps == ProbesOf(x) base == EnvsOver(ps) IN
+EnvsOf(x, withThrow, small) ==
+  LET ps == ProbesOf(x) base == EnvsOver(ps, small) IN
   IF withThrow /\ ps # {} THEN base \cup ThrowEnvs(ps, base) ELSE base
 
 \* ---- running a program
@@ -1301,6 +1344,6 @@ OnceOnly(x, envs, runs) ==
 Local(x, envs, runs) ==
   LET ps == ProbesOf(x)
       evald(e) == {q \in ps : \E j \in DOMAIN runs[e].t : runs[e].t[j] = ProbeEv(q[1])} IN
-  \A e \in envs : \A q \in ps \ evald(e) : \A cl \in RoleSet(q[2]) \cup {"X"} :
+  \A e \in envs : \A q \in ps \ evald(e) : \A cl \in RoleSet(q[2]) \cup {"X"} :   \* (a superset of the classes in use)
      LET e2 == [e EXCEPT ![q[1]] = cl] IN e2 \in envs => runs[e2] = runs[e]
 =============================================================================
